@@ -35,7 +35,7 @@ pub fn budget_for(id: &str, tier: vcore::Tier) -> u64 {
         "C14" => (80000, 40),
         "C17" => (1000000, 40),
         "C18" => (80000, 12),
-        "C19" => (250000, 48),
+        "C19" => (250000, 24),
         "C20" => (400000, 40),
         _ => (100_000, 20),
     };
